@@ -43,10 +43,15 @@ void hx_fail(const char *key, const char *fmt, ...) {
   fflush(stdout);
 }
 static void appendf(char *dst, size_t cap, const char *fmt, va_list ap) {
-  size_t l = strlen(dst);
-  if (l + 2 >= cap) return;
+  char item[256];
+  vsnprintf(item, sizeof item, fmt, ap);
+  size_t l = strlen(dst), il = strlen(item);
+  /* skip duplicates */
+  for (const char *p = dst; (p = strstr(p, item)) != NULL; p += il)
+    if ((p == dst || p[-1] == ',') && (p[il] == ',' || p[il] == 0)) return;
+  if (l + il + 2 >= cap) return;
   if (l) dst[l++] = ',';
-  vsnprintf(dst + l, cap - l, fmt, ap);
+  memcpy(dst + l, item, il + 1);
 }
 void hx_tag(const char *fmt, ...) {
   va_list ap;
